@@ -35,14 +35,15 @@ impl<T: Transport + 'static> WatchMode<T> {
     }
 
     pub async fn watch(&self) -> Result<()> {
-        // Initial sync
-        tracing::info!("Running initial sync...");
-        self.engine.sync(&self.source, &self.destination).await?;
-
-        // Set up file watcher
+        // Set up file watcher first, so that changes made while the initial sync
+        // is running are queued and picked up by the event loop afterwards
         let (tx, rx) = channel();
         let mut watcher: RecommendedWatcher = notify::recommended_watcher(tx)?;
         watcher.watch(&self.source, RecursiveMode::Recursive)?;
+
+        // Initial sync
+        tracing::info!("Running initial sync...");
+        self.engine.sync(&self.source, &self.destination).await?;
 
         println!(
             "\n🔍 Watching {} for changes (Ctrl+C to stop)...\n",
